@@ -3,7 +3,7 @@
 // Memfs operations over the MemfsGuard shim: every operation is verified against (a) the representation invariant wf
 // (property C03), (b) a reference transition written from the trait documentation (C01) including failure atomicity,
 // (c) the symlink laws (C10).  All path arguments reach the state only through _abs (C05 part 2).
-//@ prelude base errors io iter path_abs memfs_state
+//@ prelude base errors io iter strs path_abs memfs_state
 
 //@ struct file=src/sys/fs/memfs/file.rs name=MemfsFile
 //@ endstruct
@@ -812,7 +812,7 @@ pub fn vec_clone_from(a: &mut Vec<u8>, b: &Vec<u8>) ensures final(a)@ == b@ { un
 
 impl MemfsFile {
     pub open spec fn bound_ok(&self) -> bool { self.path is Some ==> self.path->Some_0.abs_clean() }
-//@ item h_sync file=src/sys/fs/memfs/file.rs block="impl MemfsFile" fn=sync props=C07,C06,C03,C12
+//@ item h_sync file=src/sys/fs/memfs/file.rs block="impl MemfsFile" fn=sync props=C07,C06,C03,C12,C01
 //@ sig pub(crate) fn sync(&mut self) -> io::Result<()>
 //@ rw R11 1 ⟦let mut guard = fs.write_guard();⟧ => ⟦⟧
 //@ rw R4 * ⟦f.data.clone_from(&self.data);⟧ => ⟦vec_clone_from(&mut f.data, &self.data);⟧
@@ -820,7 +820,7 @@ impl MemfsFile {
     pub fn sync(&mut self, guard: &mut MemfsGuard) -> (r: io::Result<()>)
         requires old(self).bound_ok(),
         ensures
-            *final(self) == *old(self),   //@ clause sync.handle_unchanged [C07]
+            *final(self) == *old(self),   //@ clause sync.handle_unchanged [C07,C01]
             // unbound handle: nothing happens
             (old(self).fs is None || old(self).path is None) ==> r is Ok && final(guard).st() == old(guard).st(),
             (old(self).fs is Some && old(self).path is Some) ==> ({
@@ -832,21 +832,21 @@ impl MemfsFile {
                 // otherwise Ok; the file content becomes exactly the handle's data; every other file, every entry and the cwd are unchanged
                 &&& s0.entries.contains_key(p) ==> r is Ok
                 &&& (s0.entries.contains_key(p) && s0.files.contains_key(p)) ==>
-                        s1 == (St { files: s0.files.insert(p, FileV { data: old(self).data@, pos: s0.files[p].pos }), ..s0 })   //@ clause sync.persist_and_frame [C07,C06,C03]
+                        s1 == (St { files: s0.files.insert(p, FileV { data: old(self).data@, pos: s0.files[p].pos }), ..s0 })   //@ clause sync.persist_and_frame [C07,C06,C03,C01]
                 &&& (s0.entries.contains_key(p) && !s0.files.contains_key(p)) ==> s1 == s0
             }),
 //@ body
 
-//@ item h_write file=src/sys/fs/memfs/file.rs block="impl io::Write for MemfsFile" fn=write props=C07,C06,C12
+//@ item h_write file=src/sys/fs/memfs/file.rs block="impl io::Write for MemfsFile" fn=write props=C07,C06,C12,C01
 //@ sig fn write(&mut self, buf: &[u8]) -> io::Result<usize>
 //@ rw R4 * ⟦self.data.write(buf)⟧ => ⟦vec_write(&mut self.data, buf)⟧
     pub fn write(&mut self, buf: &[u8]) -> (r: io::Result<usize>)
         ensures r is Ok, r->Ok_0 == buf@.len(),
-                final(self).data@ == old(self).data@ + buf@,     //@ clause write.appends_all [C07,C06]
+                final(self).data@ == old(self).data@ + buf@,     //@ clause write.appends_all [C07,C06,C01]
                 final(self).pos == old(self).pos && final(self).path == old(self).path && final(self).fs == old(self).fs,
 //@ body
 
-//@ item h_flush file=src/sys/fs/memfs/file.rs block="impl io::Write for MemfsFile" fn=flush props=C07,C06,C12
+//@ item h_flush file=src/sys/fs/memfs/file.rs block="impl io::Write for MemfsFile" fn=flush props=C07,C06,C12,C01
 //@ sig fn flush(&mut self) -> io::Result<()>
 //@ rw R11 1 ⟦self.sync()⟧ => ⟦self.sync(guard)⟧
     pub fn flush(&mut self, guard: &mut MemfsGuard) -> (r: io::Result<()>)
@@ -855,13 +855,13 @@ impl MemfsFile {
             *final(self) == *old(self),
             (old(self).fs is Some && old(self).path is Some && old(guard).st().entries.contains_key(old(self).path->Some_0@)
                && old(guard).st().files.contains_key(old(self).path->Some_0@)) ==>
-                r is Ok && final(guard).st().files[old(self).path->Some_0@].data == old(self).data@,    //@ clause flush.makes_data_visible [C07,C06]
+                r is Ok && final(guard).st().files[old(self).path->Some_0@].data == old(self).data@,    //@ clause flush.makes_data_visible [C07,C06,C01]
             forall|q: PathV| q != old(self).path->Some_0@ ==> (final(guard).st().files.contains_key(q) == old(guard).st().files.contains_key(q)
-               && (old(guard).st().files.contains_key(q) ==> final(guard).st().files[q] == old(guard).st().files[q])),   //@ clause flush.other_files_untouched [C06]
+               && (old(guard).st().files.contains_key(q) ==> final(guard).st().files[q] == old(guard).st().files[q])),   //@ clause flush.other_files_untouched [C06,C01]
             final(guard).st().entries == old(guard).st().entries,
 //@ body
 
-//@ item h_drop file=src/sys/fs/memfs/file.rs block="impl Drop for MemfsFile" fn=drop props=C07,C06,C12
+//@ item h_drop file=src/sys/fs/memfs/file.rs block="impl Drop for MemfsFile" fn=drop props=C07,C06,C12,C01
 //@ sig fn drop(&mut self)
 //@ rw R11 1 ⟦self.sync()⟧ => ⟦self.sync(guard)⟧
     pub fn drop(&mut self, guard: &mut MemfsGuard)
@@ -869,7 +869,7 @@ impl MemfsFile {
         ensures
             (old(self).fs is Some && old(self).path is Some && old(guard).st().entries.contains_key(old(self).path->Some_0@)
                && old(guard).st().files.contains_key(old(self).path->Some_0@)) ==>
-                final(guard).st() == (St { files: old(guard).st().files.insert(old(self).path->Some_0@, FileV { data: old(self).data@, pos: old(guard).st().files[old(self).path->Some_0@].pos }), ..old(guard).st() }),  //@ clause drop.persists_exactly_the_bytes_written [C07,C06]
+                final(guard).st() == (St { files: old(guard).st().files.insert(old(self).path->Some_0@, FileV { data: old(self).data@, pos: old(guard).st().files[old(self).path->Some_0@].pos }), ..old(guard).st() }),  //@ clause drop.persists_exactly_the_bytes_written [C07,C06,C01]
             !(old(self).fs is Some && old(self).path is Some && old(guard).st().entries.contains_key(old(self).path->Some_0@)
                && old(guard).st().files.contains_key(old(self).path->Some_0@)) ==> final(guard).st() == old(guard).st(),
             final(self).fs is None && final(self).path is None,
@@ -1238,3 +1238,106 @@ impl Memfs {
             wf(r.initial_st()),                                                                                      //@ clause new.establishes_wf [C03]
 //@ body
 }
+
+// =====================================================================================================================
+// Line helpers (C06): write_lines / append_line / append_lines add exactly one newline per line; read_all decodes the bytes
+// ASSUMED[str-utf8-bytes]: String::as_bytes / AsRef<[u8]> is the UTF-8 encoding, a homomorphism on concatenation
+pub uninterp spec fn utf8(s: Seq<char>) -> Seq<u8>;
+// [&str]::join("\n"): the lines separated by single newlines (std docs of slice::join)
+pub open spec fn join_nl(ls: Seq<Seq<char>>) -> Seq<char> decreases ls.len() {
+    if ls.len() == 0 { Seq::empty() } else if ls.len() == 1 { ls[0] } else { join_nl(ls.drop_last()) + seq!['\n'] + ls.last() }
+}
+// every line followed by exactly one newline
+pub open spec fn each_line_nl(ls: Seq<Seq<char>>) -> Seq<char> decreases ls.len() {
+    if ls.len() == 0 { Seq::empty() } else { each_line_nl(ls.drop_last()) + ls.last() + seq!['\n'] }
+}
+pub proof fn lemma_join_is_one_newline_per_line(ls: Seq<Seq<char>>)
+    requires ls.len() > 0
+    ensures join_nl(ls) + seq!['\n'] =~= each_line_nl(ls)      //@ clause lines.exactly_one_newline_per_line [C06]
+    decreases ls.len()
+{
+    if ls.len() == 1 {
+        assert(ls.drop_last() =~= Seq::<Seq<char>>::empty());
+        assert(each_line_nl(ls.drop_last()) =~= Seq::<char>::empty());
+    } else {
+        lemma_join_is_one_newline_per_line(ls.drop_last());
+    }
+}
+//@ obligation lemma_join_is_one_newline_per_line props=C06
+pub open spec fn views(v: Seq<Str>) -> Seq<Seq<char>> { Seq::new(v.len(), |i: int| v[i]@) }
+// R4: `lines.iter().map(|x| x.as_ref()).collect::<Vec<&str>>().join("\n")`
+#[verifier::external_body]
+pub fn join_lines(lines: &[Str]) -> (r: Str) ensures r@ == join_nl(views(lines@)) { unimplemented!() }
+impl Str {
+    // R4: `s + "\n"`
+    #[verifier::external_body] pub fn plus_nl(self) -> (r: Str) ensures r@ == self@ + seq!['\n'] { unimplemented!() }
+    #[verifier::external_body] pub fn as_bytes(&self) -> (r: &[u8]) ensures r@ == utf8(self@) { unimplemented!() }
+}
+// R12 helper: the data argument of write_all / append_all (identity)
+pub fn rw_data(s: Str) -> (r: Str) ensures r@ == s@ { s }
+// the effect of write_all / append_all on the abstract state, as proved above (same formulas as their ensures clauses)
+pub open spec fn st_write_all(s0: St, a: PathV, data: Seq<u8>) -> St {
+    let s1 = spec_add_st(s0, new_file_entry(a));
+    if s1.files.contains_key(a) { put(s1, a, data) } else { s1 }
+}
+pub open spec fn st_append_all(s0: St, a: PathV, data: Seq<u8>) -> St {
+    let s1 = spec_add_st(s0, new_file_entry(a));
+    put(s1, a, s1.files[a].data + data)
+}
+
+//@ item write_lines file=src/sys/fs/memfs/vfs.rs block="impl VirtualFileSystem for Memfs" fn=write_lines props=C06,C01,C12
+//@ sig fn write_lines<T: AsRef<Path>, U: AsRef<str>>(&self, path: T, lines: &[U]) -> RvResult<()>
+//@ rw R4 1 ⟦lines.iter().map(|x| x.as_ref()).collect::<Vec<&str>>().join("\n")⟧ => ⟦join_lines(lines)⟧
+//@ rw R12 1 re⟦self\.write_all\(path, (.*?)\)\?;⟧ => ⟦write_all(fs, guard, path, rw_data(\1).as_bytes())?;⟧
+//@ rw R4 * ⟦rw_data(lines + "\n")⟧ => ⟦lines.plus_nl()⟧
+pub fn write_lines(fs: &Memfs, guard: &mut MemfsGuard, path: &PathBuf, lines: &[Str]) -> (r: RvResult<()>)
+    requires wf(old(guard).st()),
+    ensures
+        r is Err ==> final(guard).st() == old(guard).st(),
+        ({
+            let s0 = old(guard).st();
+            let a = spec_abs(s0.cwd, path.comps());
+            let j = join_nl(views(lines@));
+            // nothing to write: the file is left alone
+            &&& j.len() == 0 ==> r is Ok && final(guard).st() == s0
+            // otherwise the whole content becomes the lines, each followed by exactly one newline
+            &&& (j.len() > 0 && a is Some && r is Ok) ==> final(guard).st() == st_write_all(s0, a->Some_0, utf8(j + seq!['\n']))      //@ clause write_lines.content_is_lines_plus_newline [C06]
+            &&& (j.len() > 0 && a is None) ==> r is Err
+        }),
+//@ body
+
+//@ item append_lines file=src/sys/fs/memfs/vfs.rs block="impl VirtualFileSystem for Memfs" fn=append_lines props=C06,C01,C12
+//@ sig fn append_lines<T: AsRef<Path>, U: AsRef<str>>(&self, path: T, lines: &[U]) -> RvResult<()>
+//@ rw R4 1 ⟦lines.iter().map(|x| x.as_ref()).collect::<Vec<&str>>().join("\n")⟧ => ⟦join_lines(lines)⟧
+//@ rw R12 1 re⟦self\.append_all\(path, (.*?)\)\?;⟧ => ⟦append_all(fs, guard, path, rw_data(\1).as_bytes())?;⟧
+//@ rw R4 * ⟦rw_data(lines + "\n")⟧ => ⟦lines.plus_nl()⟧
+pub fn append_lines(fs: &Memfs, guard: &mut MemfsGuard, path: &PathBuf, lines: &[Str]) -> (r: RvResult<()>)
+    requires wf(old(guard).st()),
+    ensures
+        r is Err ==> final(guard).st() == old(guard).st(),
+        ({
+            let s0 = old(guard).st();
+            let a = spec_abs(s0.cwd, path.comps());
+            let j = join_nl(views(lines@));
+            &&& j.len() == 0 ==> r is Ok && final(guard).st() == s0
+            &&& (j.len() > 0 && a is Some && r is Ok) ==> final(guard).st() == st_append_all(s0, a->Some_0, utf8(j + seq!['\n']))     //@ clause append_lines.appends_lines_plus_newline [C06]
+            &&& (j.len() > 0 && a is None) ==> r is Err
+        }),
+//@ body
+
+//@ item append_line file=src/sys/fs/memfs/vfs.rs block="impl VirtualFileSystem for Memfs" fn=append_line props=C06,C01,C12
+//@ sig fn append_line<T: AsRef<Path>, U: AsRef<str>>(&self, path: T, line: U) -> RvResult<()>
+//@ rw R12 1 re⟦self\.append_all\(path, (.*?)\)\?;⟧ => ⟦append_all(fs, guard, path, rw_data(\1).as_bytes())?;⟧
+//@ rw R4 * ⟦rw_data(line + "\n")⟧ => ⟦line.plus_nl()⟧
+pub fn append_line(fs: &Memfs, guard: &mut MemfsGuard, path: &PathBuf, line: &Str) -> (r: RvResult<()>)
+    requires wf(old(guard).st()),
+    ensures
+        r is Err ==> final(guard).st() == old(guard).st(),
+        ({
+            let s0 = old(guard).st();
+            let a = spec_abs(s0.cwd, path.comps());
+            &&& line@.len() == 0 ==> r is Ok && final(guard).st() == s0
+            &&& (line@.len() > 0 && a is Some && r is Ok) ==> final(guard).st() == st_append_all(s0, a->Some_0, utf8(line@ + seq!['\n']))     //@ clause append_line.appends_line_plus_newline [C06]
+            &&& (line@.len() > 0 && a is None) ==> r is Err
+        }),
+//@ body
